@@ -1,4 +1,23 @@
 chk('C12', 'model_checking',
-    'stateless exploration of the complete nondeterminism tree of ppm.HDD on the real function: a scripted numpy RNG turns every scalar randint/choice request into a tree node and the explorer re-executes HDD for every answer the generator can give (full tree for EVERY slot pattern of up to 12 slots (quick) / 16 slots (thorough) for M in {2,4,8,16}; deviation-bounded tree, at most d answers differing from the first candidate, for 13-18-slot patterns, orders 16..256 and 3-6-symbol sequences over a 9-kind symbol alphabet); every leaf is checked for one ON slot per symbol / valid symbols unchanged / kept slot was ON and every choice request for offering ON slots only; states = tree nodes, transitions = edges, traces = executions of the real HDD. Around it, bounded-exhaustive: PPM_ENCODER/PPM_DECODER on every bit string of length 0..12 x M in {2..256} x 8 container forms, all ordered pairs of symbol values, long structured and seeded words; SDD identity on DAC(codeword) for sps {1,2,5,16} x nrz/rz/gaussian x exhaustive short codewords per order and the chain DEC(SDD(DAC(ENC(b))))==b; SDD argmax on tie-free seeded energy fields and all permutations of slot amplitudes; ValueError clauses over non-power-of-two orders and ragged lengths in every container form; real-RNG conformance (np.random.seed, 8 seeds x 2000-slot seeded patterns replayed through the scripted RNG, real outcomes of small patterns must be leaves of the explored tree)',
-    'slot patterns above 16 slots (18 for M=2) and orders above 16 are covered only through the symbol-kind alphabet and a deviation bound, not exhaustively; "randomly for long sequences" is covered by seeded 2000-slot patterns / 2000-4097-bit words whose content (not enumeration) depends on VERIF_SEED; SDD energy fields are restricted to symbols where sum(x) and sum(x^2) pick the same slot (both readings of "integrated energy"); that numpy.random.randint/choice only return members of the requested candidate set is trusted and bound by the conformance part; orders outside the statement (M=0, M=1, non-integer M) are not asserted',
-    'scripted-RNG stateless search of the HDD answer tree (full / deviation-bounded) in lock-step with a three-clause reference oracle + bounded-exhaustive differential enumeration for encoder, decoder, SDD and the error clauses', 'DESIGN.md 5/C12')
+    'stateless exploration of the nondeterminism tree of ppm.HDD on the real function: a scripted numpy RNG turns every scalar randint/choice request into a tree node and HDD '
+    'is re-executed for every answer the generator can give. FULL tree for EVERY slot pattern of <=12 slots, M in {2,4,8} (quick) / <=16 slots, M in {2,4,8,16} (thorough); '
+    'deviation-bounded tree (at most d answers differ from the first candidate) for every 13-16-slot pattern (quick, d=2), every 18-slot M=2 pattern (thorough, d=1), 1-3 '
+    'symbols of a 9-kind alphabet for M=16..256 (1 symbol full; 2: d=1 / thorough full; 3: d=1) and 3-5-symbol kind sequences for M in {4,8} (d<=2). Every leaf: one ON slot '
+    'per symbol, valid symbols unchanged, kept slot was ON; every choice request: ON slots only; small patterns also in up to 49 container forms, on the same object again '
+    'under other answers, and with the real generator (outcome must be a leaf). quick 265 773 patterns, 3.90 M leaves (= executions of HDD), 7.52 M nodes; thorough 653 960 / 14.7 M / 29.1 M. Around it, '
+    'bounded-exhaustive: PPM_ENCODER/PPM_DECODER on every bit string of length 0..12 x M in {2..256} x 49 container forms up to 8 bits (thorough 12), else 13 (str separator '
+    'spellings, element types, 13 ndarray dtypes, strided / write-protected views), arguments byte-compared after each call; all ordered symbol pairs, 2000-4097-bit words, '
+    'records beyond 2^16 slots, zero symbols, M as numpy scalar / 0-d / keyword; SDD identity on DAC(codeword) (sps {1,2,5,16} x 3 pulse shapes x short codewords) and chains '
+    'DEC(SDD(DAC(ENC(b))))==b, HDD(ENC(b)); SDD argmax on 4 seeded energy families, all amplitude permutations and tied-energy assignments (M<=4, thorough 8), 15 sample '
+    'dtypes x 15 container/noise layouts + 5 scales/offset (3 612 / 9 632 cases), one shared object after each of 10 gv configurations and every a->b->a history; ValueError '
+    'for 16 invalid orders, 0 and ragged lengths in all forms (3 839 cases); real-RNG conformance (up to 8 numpy seeds x 2000-slot seeded patterns replayed through the '
+    'scripted RNG); kernel call-history part (7 calls x 3 ambient grids vs a fresh interpreter). quick 349 832 / thorough 915 838 cases',
+    'slot patterns above 16 slots (18 for M=2) and orders above 16 are covered only through the 9-kind alphabet and a deviation bound, not exhaustively (quick: 4.35 M sibling '
+    'answers pruned); "randomly for long sequences" is covered by seeded 2000-slot patterns / long words whose content (not the enumeration) depends on VERIF_SEED; the SDD ON slot '
+    'is asserted only on symbols where all readings of "integrated energy" (sum x, sum x^2; complex: sum Re x, sum |x|^2, |sum x|) pick the same slot beyond the rounding bound '
+    '(quick 59 693 of 65 984 symbols); that numpy.random.randint/choice only return members of the requested candidate set is trusted and bound by the conformance part; '
+    'float-valued orders may be rejected or treated as the int; narrow / unsigned numpy orders, M=1, bool orders, tab/newline/";" string spellings, nested or ragged '
+    'containers and integer samples beyond 2^53 are run or left out but not asserted',
+    'scripted-RNG stateless search of the HDD answer tree by re-execution (full / deviation-bounded) in lock-step with a three-clause reference oracle + bounded-exhaustive '
+    'differential enumeration (container forms, dtypes, call histories) for encoder, decoder, SDD and the error clauses; fresh-interpreter differential oracle for the kernel '
+    'call-history part', 'DESIGN.md 5/C12')
